@@ -29,6 +29,8 @@ type Fed struct {
 	Store     Store
 	// Ctx, when set, is the context requests of Run are made under (instead of context.Background())
 	Ctx context.Context
+	// CacheKey, when set, is the key (hash) the requests of Run / runWith carry
+	CacheKey string
 }
 
 // Quiet is a Logger that drops everything.
@@ -142,7 +144,7 @@ func (f *Fed) Run(query, op string, vars map[string]interface{}, timeout time.Du
 		if rctx == nil {
 			rctx = context.Background()
 		}
-		rc := &gateway.RequestContext{Context: rctx, Query: query, OperationName: op, Variables: vars}
+		rc := &gateway.RequestContext{Context: rctx, Query: query, OperationName: op, Variables: vars, CacheKey: f.CacheKey}
 		plans, err := f.GW.GetPlans(rc)
 		close(planned)
 		if err != nil {
